@@ -1,6 +1,7 @@
 package main
 
 import (
+	"context"
 	"encoding/json"
 	"fmt"
 	"io"
@@ -10,6 +11,7 @@ import (
 	"sort"
 	"strings"
 	"sync"
+	"time"
 
 	"oryxverif/checker/internal/core"
 )
@@ -89,8 +91,13 @@ func selfValidate(prop, repo, root string, r *core.Run) {
 			if kb, err := os.ReadFile(filepath.Join(root, "known_findings.json")); err == nil {
 				os.WriteFile(filepath.Join(tr, "known_findings.json"), kb, 0o644)
 			}
-			cmd := exec.Command(self, "-property", prop, "-tier", "quick", "-repo", w, "-root", tr)
+			ctx, cancel := context.WithTimeout(context.Background(), 20*time.Minute)
+			cmd := exec.CommandContext(ctx, self, "-property", prop, "-tier", "quick", "-repo", w, "-root", tr)
+			// the child is a quick run: it must not inherit this (thorough) run's analysis budget
+			cmd.Env = append(os.Environ(), "ORYX_RUN_BUDGET_S=60")
 			res, _ := cmd.CombinedOutput()
+			timedOut := ctx.Err() != nil
+			cancel()
 			var rulesHit []string
 			seen := map[string]bool{}
 			for _, ln := range strings.Split(string(res), "\n") {
@@ -105,6 +112,8 @@ func selfValidate(prop, repo, root string, r *core.Run) {
 			}
 			o.Reported = strings.Join(rulesHit, ",")
 			switch {
+			case timedOut:
+				o.Result = "not finished within 20 minutes (the change makes the analysis explode; a normal run reports it as undecided)"
 			case meta.Expected == "MISSED" && len(rulesHit) == 0:
 				o.Result = "missed (recorded as not detectable by these rules)"
 			case meta.Expected == "MISSED":
